@@ -316,7 +316,7 @@ def main(tier=None, replay=None):
     # ---- 1. models
     r = tlc(SEG, CFG / f"SegDist.{ck.tier}.cfg", timeout=1500)
     ck.model("SegDist." + ck.tier, r)
-    segs = [x["seg"] for x in r.printed() if "seg" in x]
+    segs = sorted(x["seg"] for x in r.printed() if "seg" in x)      # TLC's print order varies with workers
     if not segs:
         raise MachineryError("TLC emitted no segment pairs")
     ra = tlc(SEG, CFG / "SegDist.asis.cfg", timeout=600)
@@ -326,7 +326,7 @@ def main(tier=None, replay=None):
     ck.model("ConnPairing." + ck.tier, rp)
     precs = rp.printed()
     header = next(x for x in precs if x.get("header"))
-    clouds = [x for x in precs if "pu" in x]
+    clouds = sorted((x for x in precs if "pu" in x), key=lambda x: (len(x["pu"]) + len(x["ps"]), json.dumps(x, sort_keys=True)))
     if not ck.quick:
         rs = tlc(PAIR, CFG / "ConnPairing.sim.cfg", simulate="num=60", depth=12, seed=ck.seed, workers=8, timeout=1500)
         if rs.error or rs.invariant_violated or rs.rc == 124:
@@ -339,6 +339,7 @@ def main(tier=None, replay=None):
                 if key not in seen:
                     seen.add(key)
                     big.append(x)
+        big.sort(key=lambda x: json.dumps(x, sort_keys=True))
         ck.part("ConnPairing.sim", big_clouds=len(big))
         clouds += big
 
